@@ -236,7 +236,11 @@ func (w *world) writeFile(n nodeJ) error {
 
 // snapshot re-reads the tree below root. fingerprint changes iff anything
 // observable (names, kinds, sizes, link targets, times, inode numbers) changed.
-func (w *world) snapshot() ([]nodeJ, string, error) {
+func (w *world) snapshot() ([]nodeJ, string, error) { return w.snapshotAt(nil, nil) }
+
+// snapshotAt re-reads the subtree at path sub (nil: the whole tree).  only (optional) says which chunk names may
+// explain file contents there (concurrent mode: a connection's private files consist of that connection's uploads).
+func (w *world) snapshotAt(sub []string, only func(name string) bool) ([]nodeJ, string, error) {
 	var nodes []nodeJ
 	h := sha256.New()
 	var walk func(dir string, p []string) error
@@ -303,7 +307,7 @@ func (w *world) snapshot() ([]nodeJ, string, error) {
 				if err != nil {
 					return err
 				}
-				n.Cid = w.decompose(b)
+				n.Cid = w.decompose(b, only)
 				n.Vcid = n.Cid
 				if strings.Contains(n.Cid, "+") {
 					w.reg.get(n.Cid) // make the concatenation a known source for later reads
@@ -315,7 +319,7 @@ func (w *world) snapshot() ([]nodeJ, string, error) {
 		}
 		return nil
 	}
-	if err := walk(w.root, nil); err != nil {
+	if err := walk(segPath(w.root, sub), append([]string{}, sub...)); err != nil {
 		return nil, "", err
 	}
 	return nodes, hex.EncodeToString(h.Sum(nil)), nil
@@ -323,7 +327,7 @@ func (w *world) snapshot() ([]nodeJ, string, error) {
 
 // decompose names the content of a file as a '+'-joined list of known chunks
 // (depth-first with backtracking: chunks may share prefixes).
-func (w *world) decompose(b []byte) string {
+func (w *world) decompose(b []byte, only func(name string) bool) string {
 	if len(b) == 0 {
 		return ""
 	}
@@ -333,7 +337,7 @@ func (w *world) decompose(b []byte) string {
 	}
 	var cands []cand
 	for _, name := range w.reg.names() {
-		if strings.Contains(name, "+") {
+		if strings.Contains(name, "+") || (only != nil && !only(name)) {
 			continue
 		}
 		s := w.reg.get(name)
